@@ -395,14 +395,14 @@ Lemma parse_sound fmts size k s v :
   hw_parse fmts size s = Ok v ->
   v < 16 ^ N.of_nat k /\ exists t mask, In t fmts /\ length mask = k /\ s = spell t mask v.
 Proof.
-  intros Hoff Hf Hp. unfold hw_parse in Hp. destruct s as [|c0 r0]; [discriminate Hp|].
+  intros Hoff Hf Hp. unfold hw_parse in Hp. remember (hexacc 0 s) as h eqn:Eh. destruct s as [|c0 r0]; [discriminate Hp|].
   destruct (existsb (fun t => match_tpl t (c0 :: r0)) fmts) eqn:EE; [|discriminate Hp].
   injection Hp as Hp. rewrite Hoff, N.shiftr_0_r in Hp.
   apply existsb_exists in EE. destruct EE as [t [Hin Hm]].
   rewrite forallb_forall in Hf. specialize (Hf t Hin). apply andb_true_iff in Hf. destruct Hf as [Hcl Hk]. apply Nat.eqb_eq in Hk.
   destruct (match_inv t _ Hm) as [cs [E [HF HL]]].
   destruct (hex_chars_mask cs HF) as [HD [mask [HM1 HM2]]].
-  rewrite E, (hexacc_fill t Hcl cs 0 HF HL), fold_hexv in Hp. fold (msb_val (map hexv cs)) in Hp.
+  rewrite E, (hexacc_fill t Hcl cs 0 HF HL), fold_hexv in Eh. fold (msb_val (map hexv cs)) in Eh. subst h.
   assert (Hlen : length (map hexv cs) = k) by (rewrite map_length, HL; exact Hk).
   split.
   - rewrite <- Hp, <- Hlen. apply msb_val_lt. exact HD.
@@ -452,8 +452,8 @@ Lemma mac_render v :
   mac_colon v = Ok (spell_lower fmt_colon48 v) /\ mac_unix v = Ok (spell_lower fmt_dash48 v).
 Proof.
   unfold mac_cisco, mac_dash, mac_colon, mac_unix, mac_mb. rewrite mac_lower_str.
-  unfold spell_lower at 1 2 3 4 5 6 7 8 9 10 11 12 13 14 15 16 17 18 19 20 21 22 23 24 25 26 27 28 29 30 31 32 33.
-  change (count_x fmt_dash48) with 12%nat.
+  unfold spell_lower.
+  change (count_x fmt_dash48) with 12%nat. change (count_x fmt_cisco48) with 12%nat. change (count_x fmt_colon48) with 12%nat.
   destruct (mac_renderings (map hex_digit (nibbles 12 v))) as [R1 [R2 R3]];
     [rewrite map_length; apply nibbles_length | apply lower_digits_no_dash |].
   cbv zeta in R1, R2, R3. rewrite R1, R2, R3. repeat split.
@@ -465,7 +465,7 @@ Proof.
   intros Hv r Hr. destruct (mac_render v) as [R1 [R2 [R3 R4]]]. destruct tables48 as [_ [_ [Hoff [_ P]]]].
   assert (G : forall t, In t [fmt_dash48; fmt_colon48; fmt_cisco48; fmt_bare48] -> mac_new (spell_lower t v) = Ok v).
   { intros t Ht. destruct (fmt48_facts t Ht) as [F1 [F2 [F3 [F4 _]]]]. unfold mac_new.
-    apply (parse_spell_lower _ _ 12); try assumption. rewrite P. exact Hv. }
+    apply (parse_spell_lower _ _ 12); first [assumption | rewrite P; exact Hv]. }
   cbn [In] in Hr. destruct Hr as [Hr|[Hr|[Hr|[Hr|[]]]]]; subst r; eexists; (split; [eassumption|]); apply G; cbn [In]; tauto.
 Qed.
 
@@ -473,7 +473,7 @@ Lemma mac_parse_any_spelling v t mask : v < 2 ^ 48 -> In t [fmt_dash48; fmt_colo
   length mask = 12%nat -> mac_new (spell t mask v) = Ok v.
 Proof.
   intros Hv Ht Hm. destruct (fmt48_facts t Ht) as [F1 [F2 [F3 [F4 _]]]]. destruct tables48 as [_ [_ [Hoff [_ P]]]].
-  unfold mac_new. apply (parse_spell _ _ 12); try assumption. rewrite P. exact Hv.
+  unfold mac_new. apply (parse_spell _ _ 12); first [assumption | rewrite P; exact Hv].
 Qed.
 
 Lemma mac_parse_sound s v : mac_new s = Ok v ->
@@ -548,7 +548,7 @@ Proof.
   intros Hv r Hr. destruct (eui_render v) as [R1 [R2 R3]]. destruct tables64 as [_ [_ [Hoff [_ P]]]].
   assert (G : forall t, In t [fmt_dash64; fmt_colon64; fmt_cisco64; fmt_bare64] -> eui_new (spell_lower t v) = Ok v).
   { intros t Ht. destruct (fmt64_facts t Ht) as [F1 [F2 [F3 [F4 _]]]]. unfold eui_new.
-    apply (parse_spell_lower _ _ 16); try assumption. rewrite P. exact Hv. }
+    apply (parse_spell_lower _ _ 16); first [assumption | rewrite P; exact Hv]. }
   cbn [In] in Hr. destruct Hr as [Hr|[Hr|[Hr|[]]]]; subst r; eexists; (split; [eassumption|]); apply G; cbn [In]; tauto.
 Qed.
 
@@ -556,7 +556,7 @@ Lemma eui_parse_any_spelling v t mask : v < 2 ^ 64 -> In t [fmt_dash64; fmt_colo
   length mask = 16%nat -> eui_new (spell t mask v) = Ok v.
 Proof.
   intros Hv Ht Hm. destruct (fmt64_facts t Ht) as [F1 [F2 [F3 [F4 _]]]]. destruct tables64 as [_ [_ [Hoff [_ P]]]].
-  unfold eui_new. apply (parse_spell _ _ 16); try assumption. rewrite P. exact Hv.
+  unfold eui_new. apply (parse_spell _ _ 16); first [assumption | rewrite P; exact Hv].
 Qed.
 
 Lemma eui_parse_sound s v : eui_new s = Ok v ->
